@@ -436,7 +436,9 @@ def expand_c13(st, seed):
             ee[nv - 2] = 1
             R.append(dict(c=3, e=ee))
         r["eqs"].append(dict(name=name, R=R, w=(2 + e) if st["wform"] == "dict" else (0 if st["wform"] == "nodyn" else 4),
-                             scalar=bool((e + len(st["naming"]) + st["nunk"]) % 3 == 0)))     # this equation returns its residual as a 0-d scalar
+                             scalar=bool((e + len(st["naming"]) + st["nunk"]) % 3 == 0),      # this equation returns its residual as a 0-d scalar
+                             # every other equation declares k1 heterogeneous: k1 -> k1 * x0 + k2 inside this equation only
+                             het=[[dict(c=1, e=[1] + [0] * (nin - 1) + [1, 0]), dict(c=1, e=[0] * nin + [0, 1])], []] if (e + st["nunk"]) % 2 == 0 else [[], []]))
     return r
 
 
@@ -481,6 +483,9 @@ def expand_c11l(st, seed):
         r["inside"] = [[0] + g for g in _grid(xs)]
         r["ic"] = dict(on=True, t0=0, u0=[rpoly(rng, dim, 2, 2) for _ in range(M)])
         r["w"]["ic"] = [rng.choice([1, 2])]
+        # one output: the user's initial function may return the grid of values WITHOUT a trailing component axis (the repository's own
+        # separable-network example does)
+        r["icret"] = "grid" if (M == 1 and (b + dim + R) % 2 == 0) else "comp"
     elif term == "dyn":
         nres = rng.choice([1, 2])
         nv = d + M + 2
